@@ -164,6 +164,10 @@ def observed(sf, r):
     return {'t': 'element', 'v': norm(r)}
 
 
+def _apply_len(*a):
+    return len(a[-1]) + 7
+
+
 def nlab(x):
     return tuple(norm(v) for v in x) if isinstance(x, tuple) else norm(x)
 
@@ -319,6 +323,7 @@ class QuiltWorld(WorldBase):
         elif what == 'q_iter':
             op['kind'] = ch.choice(['array', 'series', 'tuple'])
             op['items'] = ch.chance(0.5)
+            op['apply'] = ch.chance(0.3)
         elif what == 'q_window':
             op['size'] = ch.randint(1, 3)
             op['kind'] = ch.choice(['frame', 'array'])
@@ -629,6 +634,21 @@ class QuiltWorld(WorldBase):
                 else:
                     out.append(one(x))
             return tuple(out)
+        if op.get('apply'):
+            # function application over the iterator: one result per label, labelled like the axis iterated over
+            depth = len(labels[0]) if labels and isinstance(labels[0], tuple) else 1
+
+            def thunk_apply():
+                if kind == 'array':
+                    node = (q.iter_array_items if items else q.iter_array)(axis=ax)
+                elif kind == 'series':
+                    node = (q.iter_series_items if items else q.iter_series)(axis=ax)
+                else:
+                    node = (q.iter_tuple_items if items else q.iter_tuple)(axis=ax, constructor=tuple)
+                r = node.apply(_apply_len)
+                o = observed(sf, r)
+                return (tuple(o['index']), tuple(o['cells']), r.index.depth)
+            return site + '.apply', {'t': 'tuple', 'cells': norm_list([tuple(labels), tuple(len(v) + 7 for v in vecs), depth])}, thunk_apply
         exp = []
         for lab, vec in zip(labels, vecs):
             if kind == 'array':
